@@ -32,4 +32,36 @@ PROPS = {
         trusted_base=["tungstenite's own parser on hostile bytes is an oracle (sampled by the hostile-peer scenarios, not proved)", KERNEL_ORACLES],
         assumptions=["usize is 64 bits"],
     ),
+    "C07": dict(
+        coq=["props/C07.vo"], props=["props/C07.v"],
+        runs=[dict(core="queue", profile="debug", extra_models=["queuespec"])],
+        nontrivial="distinct histories (operation sequence with the recorded clock readings)",
+        trusted_base=["crossbeam-channel: linearizable unbounded MPMC FIFO; select! returns a ready arm; at(t) never fires before t; default(d) fires only when no arm became ready within d",
+                      "std::time::Instant is monotone; its Debug output (tv_sec/tv_nsec) is read by the harness to obtain the real deadlines"],
+        assumptions=["single-threaded histories (the queue is quiescent at each receive)", "histories in which a clock reading falls within 2 ms of a live deadline are discarded and counted"],
+    ),
+    "C06": dict(
+        coq=["props/C06.vo"], props=["props/C06.v"],
+        runs=[dict(core="queue_conc", profile="debug", model_core="queuelog"),
+              dict(core="queue", profile="debug", extra_models=["queuespec"])],
+        nontrivial="distinct logs / histories; the flood scenario is counted by its events in input_distribution",
+        trusted_base=["crossbeam-channel: linearizable unbounded MPMC FIFO (oracle)", "AtomicUsize::fetch_add: unique sequence numbers"],
+        assumptions=["the receiver is a single consumer (&mut self)", "atomics are modelled sequentially consistent (the code uses Relaxed on one counter only)"],
+    ),
+    "C08": dict(
+        coq=["props/C08.vo"], props=["props/C08.v"],
+        runs=[dict(core="queue_timed", profile="debug", model_core="queuelabels"),
+              dict(core="queue_conc", profile="debug", model_core="queuelog"),
+              dict(core="queue", profile="debug", extra_models=["queuespec"])],
+        nontrivial="distinct label sequences with their recorded clock readings",
+        trusted_base=["crossbeam_channel::at(t) never fires before t; std::time::Instant monotone (oracles)"],
+        assumptions=["real-time clauses are one-sided (never early); scenarios whose decisive instants are closer than 8 ms are discarded and counted"],
+    ),
+    "C16": dict(
+        coq=["props/C16.vo"], props=["props/C16.v"],
+        runs=[dict(core="queue_timed", profile="debug", model_core="queuelabels")],
+        nontrivial="distinct label sequences with their recorded clock readings",
+        trusted_base=["crossbeam-channel's select! returns within bounded time once an arm is ready (oracle; wake-up latency above 1 s is reported as a wedge)"],
+        assumptions=["liveness is proved in safety form (no lost wake-up); bounded latency itself is measured, not proved"],
+    ),
 }
